@@ -88,6 +88,15 @@ CHECKS.update({
          "5/C19"),
 })
 
+CHECKS.update({
+ "C18": ("FFI call-sequence driver with value oracle under memory monitors: auditing global allocator (layout of every dealloc/realloc, unknown frees, leak-by-repetition), Miri, and in the thorough tier ASan+LSan, valgrind memcheck and a C client under clang ASan/UBSan",
+         "Generated call sequences create* ; use* ; drop over requests, actions, header lists (caller-built and library-built, released node by node and string by string as the C modules do), body filters (create / filter* / close | drop), buffers (incl. duplicate/clone and outputs whose capacity differs from their length), returned strings, logging and the accounted immortals follow the ownership protocol of the nginx/apache modules. Every result is compared with the native API. The same driver runs under an auditing allocator that checks every deallocation layout and decides leaks by repetition, under Miri (Stacked Borrows; Tree Borrows with CSS selectors in the thorough tier) and, thorough, under ASan/LSan, valgrind and as a real C program linked against libredirectionio.a.",
+         "Miri / ASan / valgrind / the audit allocator as memory oracles; Stacked-Borrows runs avoid CSS selectors (third-party servo_arc is rejected by Stacked Borrows); wasm bindings not covered.",
+         "5/C18"),
+})
+ENGINES.append({"name": "ffi-driver", "path": "/verif/ffi-driver", "serves_properties": ["C18", "C07"], "kind_free_text": "Rust FFI call-sequence driver (extern declarations of the C surface) run under the audit allocator, Miri, ASan/LSan and valgrind by tools/engines/c18.py"})
+ENGINES.append({"name": "cdriver", "path": "/verif/cdriver", "serves_properties": ["C18"], "kind_free_text": "C client compiled with clang -fsanitize=address,undefined against libredirectionio.a (thorough tier)"})
+
 PENDING_REASON = "monitor under construction in this session; not claimed until its check is registered"
 
 def main():
@@ -110,7 +119,7 @@ def main():
                 "thorough_cmd": f"./check {pid} thorough",
                 "evidence_file": f"/verif/evidence/{pid}.json",
                 "replay_cmd_template": f"./check {pid} --replay {{path}}",
-                "engine": "rio-mon",
+                "engine": "ffi-driver" if pid == "C18" else "rio-mon",
                 "level_claimed": {"category": "exploration", "text": text, "design_ref": f"DESIGN.md section {ref}"},
                 "level_note": note,
                 "technique": tech,
